@@ -803,6 +803,72 @@ def search(payload):
             if len(fails) >= 200:
                 break
     fails.sort(key=lambda f: (len(f["p"]), len(json.dumps(f["spec"]))))      # smallest failing predicate first
+    # HISTORY (history.py): the same renderings again and again on temporaries; the caller annotates the dictionaries it was handed (adds a key
+    # to every nested dict) and renders something else; a rendering that failed with RecursionError is repeated after the limit was raised
+    import history
+    import sys as _sys
+
+    def annotate(j, depth=0):
+        if isinstance(j, dict) and depth < 50:
+            for v in list(j.values()):
+                annotate(v, depth + 1)
+            j["note"] = "seen by the caller"
+
+    def render_call(s_):
+        def th():
+            bad_ = check_spec(s_, build(s_))
+            if bad_:
+                return {"spec": s_, "p": safe_repr(build(s_)), **bad_}
+            annotate(to_json(build(s_)))               # what a caller may do with the result it was handed
+            return None
+        return th
+    hspecs = [s_ for s_ in specs[: len(leaves) + 400: 9]]
+    hcalls = []
+    for i, s_ in enumerate(hspecs):
+        try:
+            build(s_)
+        except Exception:  # noqa: BLE001
+            continue
+        hcalls.append((f"to_json(<{json.dumps(s_)[:120]}>), the result then annotated by the caller", render_call(s_)))
+
+    def deep_not(k):
+        return ["un", "~", deep_not(k - 1)] if k else ["c1", "ne_p", "13"]
+
+    def retry_after_recursion_error():
+        p = build(["c1", "ne_p", "13"])
+        for _ in range(700):
+            p = ~p
+        try:
+            to_json(p)
+            return None                                  # (deep enough for the default limit on every interpreter this runs on; if not, nothing to retry)
+        except RecursionError:
+            pass
+        old = _sys.getrecursionlimit()
+        _sys.setrecursionlimit(20000)
+        try:
+            j = to_json(p)
+        finally:
+            _sys.setrecursionlimit(old)
+        depth, cur = 0, j
+        while isinstance(cur, dict) and "not" in cur:
+            cur = cur["not"].get("predicate")
+            depth += 1
+        if depth != 700:
+            return {"spec": "~ applied 700 times to ne_p(13)", "p": "~~...~ne_p(13)", "violates": "nesting of the JSON differs from the nesting of the predicate",
+                    "to_json": safe_repr(j, 200), "nesting_found": depth, "note": "the first to_json(p) raised RecursionError (the interpreter's limit); the same call after sys.setrecursionlimit(20000)"}
+        return None
+    _old = _sys.getrecursionlimit()
+    _sys.setrecursionlimit(1000)
+    try:
+        hn, hfails = history.run(hcalls, passes=3, seed=int(payload.get("seed", 0)), vetted=False)
+        r_ = retry_after_recursion_error()              # a history of its own (self-contained: judged at its first execution)
+        hn += 1
+        if r_:
+            hfails.append(r_)
+    finally:
+        _sys.setrecursionlimit(_old)
+    n += hn
+    fails = fails + hfails
     samples = [{"spec": s, "to_json": safe_repr(to_json_or_error(s), 300)} for s in (specs[len(leaves) + 7], specs[-5])]
     return {"evaluations": n, "failures": fails[:5], "known_hits": [], "constructors_refused": refused,
             "leaf_kinds": len(leaves), "exported_atoms": len(ATOMS), "samples": samples}
@@ -833,6 +899,9 @@ def replay(payload):
     spec = inp.get("spec")
     if spec is None:
         return {"fails": True, "note": "no constructor spec stored (tie/proof breakage): re-run ./check C18", "input": inp}
+    if inp.get("history") or inp.get("note") or not isinstance(spec, list):
+        return {"fails": True, "note": "this failure depends on the calls made before it in one process (see `history` / `calls_before` / `note` in the input): "
+                                       "re-run ./check C18, which replays the whole history", "input": inp}
     bad = check_spec(spec)
     return {"fails": bad is not None, "spec": spec, "p": safe_repr(build(spec)), "to_json": safe_repr(to_json_or_error(spec), 600), "violation": bad}
 
